@@ -22,7 +22,8 @@ RULE = (
     "network clients) and must hold the same payload; 'burst': 2-3 BLOBs (incl. 70 kB and 150 kB, i.e. messages > 64 KiB) and a text update published back-to-back "
     "while every drain() of the fake transports suspends for one loop iteration (back-pressure): a raw peer with policy Also must "
     "receive every element whole, in order, bit-exact; 'refill': one BLOB object around a bytearray that is refilled in place and "
-    "published / uploaded again (same and different lengths). Oracle: observers that enabled BLOBs hold identical bytes, format and length; the others' inbound byte stream "
+    "published / uploaded again (same and different lengths); 'compressed': payloads that really are zlib streams under '.z' / '.fits.z' "
+    "formats (and non-zlib bytes under them), both directions. Oracle: observers that enabled BLOBs hold identical bytes, format and length; the others' inbound byte stream "
     "contains no setBLOBVector and their mirror no payload; an upload reaches the driver element identically; a sentinel text update "
     "sent after the BLOB reaches every client whose policy admits text (nothing stalls); every Buffer.process call terminates. "
     "Non-trivial: payload non-empty and the message is longer than one 1024-byte read, or some observer has a policy other than "
